@@ -33,9 +33,26 @@ pub fn programs(args: &Args, report: &mut Report) -> Vec<Vec<Stat>> {
         }
     }
     report.add("family_programs_run", out.len() as u64);
+    // exhaustive by size: every program with at most N AST nodes of the enumeration grammar (`ast::Enum`)
+    let bound = if args.thorough() { 4 } else { 3 };
+    let en = ast::Enum::new(bound);
+    for n in 1..=bound {
+        let all = en.programs(n);
+        let before = out.len();
+        for (i, p) in all.iter().enumerate() {
+            // quick: sizes 1-2 completely, a seeded 5% of size 3
+            if args.thorough() || n <= 2 || rng.chance(1, 20) {
+                out.push(p.clone());
+            }
+            let _ = i;
+        }
+        report.add(&format!("enumerated_size_{n}_total"), all.len() as u64);
+        report.add(&format!("enumerated_size_{n}_run"), (out.len() - before) as u64);
+    }
+    report.extra.insert("exhaustive_node_bound".into(), json!(if args.thorough() { 4 } else { 2 }));
     let (n, max_nodes) = if args.thorough() { (40_000, 40) } else { (3_000, 25) };
     for i in 0..n {
-        let mut g = Gen { rng: &mut rng, names: 3 };
+        let mut g = Gen { rng: &mut rng, names: 3, vararg: true };
         let nodes = 3 + (i % (max_nodes - 2));
         out.push(g.program(nodes));
     }
@@ -91,6 +108,11 @@ fn count_kinds(b: &[Stat], report: &mut Report) {
                 count_kinds(e, report)
             }
             Stat::CallS(..) => report.count("stat_call"),
+            Stat::LocalAttr(..) => report.count("stat_local_attrib"),
+            Stat::Method(_, _, colon, _, b) => {
+                report.count(if *colon { "stat_method" } else { "stat_field_function" });
+                count_kinds(b, report)
+            }
         }
     }
 }
